@@ -96,7 +96,7 @@ struct World
 
 inline std::string gen_crate_name(S& s, Ctx& ctx, World& w)
 {
-    static const std::vector<std::string> pool = {"A", "B", "C", "D"};
+    static const std::vector<std::string> pool = {"A", "B", "C", "D", "AA", "BA"};
     switch (s.below(10))
     {
         case 0:
@@ -331,8 +331,9 @@ inline void adopt_new_crate(World& w, Ctx& ctx, dj::crate cr, const std::string&
     VF_CHECK(!w.by_id(id), where << ": new crate got id " << id << " which belongs to a live crate");
     if (w.issued_crate_ids.count(id))
     {
-        // 2.x ids are AUTOINCREMENT and must never come back; 1.x re-issues the highest id (known finding F-idreuse)
-        VF_CHECK(!w.v2, where << ": crate id " << id << " of a removed crate was issued again");
+        // ids of removed crates must never come back (a stale handle would become valid again and crate_by_id would find a
+        // "removed" crate). 1.x re-issues the highest id: known finding F33, tolerated only while it is listed.
+        VF_CHECK(!w.v2 && ctx.exclude("v1_entity_id_reissued"), where << ": crate id " << id << " of a removed crate was issued again");
         ctx.label("1.x:crate-id-reissued");
     }
     w.issued_crate_ids.insert(id);
@@ -402,7 +403,7 @@ inline void apply_crate_op(World& w, S& s, Ctx& ctx, int mask)
     auto lt = w.live_tracks();
     std::vector<int> menu;
     if (mask & OPS_FOREST)
-        menu.insert(menu.end(), {0, 0, 1, 1, 1, 2, 3, 3, 4});
+        menu.insert(menu.end(), {0, 0, 1, 1, 1, 2, 2, 3, 3, 4});
     if (mask & OPS_AFTER)
         menu.insert(menu.end(), {5, 6, 6});
     if (mask & OPS_MEMBERS)
@@ -674,6 +675,7 @@ inline void apply_crate_op(World& w, S& s, Ctx& ctx, int mask)
                 VF_CHECK(!(t.live && t.id == id), w.hist << ": new track got the id of a live track " << id);
             if (w.issued_track_ids.count(id))
             {
+                VF_CHECK(!w.v2 && ctx.exclude("v1_entity_id_reissued"), w.hist << ": track id " << id << " of a removed track was issued again");
                 w.recreated_track = true;
                 ctx.label("track-id-reissued");
             }
@@ -867,6 +869,43 @@ inline void prelude(World& w, S& h, Ctx& ctx)
     w.hist += " | prelude(" + std::to_string(burn) + " burnt, " + std::to_string(nt) + " tracks, " + std::to_string(nc) + " crates)";
 }
 
+// a forest that is already deep: chains of depth 3..4 whose names come from the colliding pool (so that a crate's name can
+// re-occur inside its descendants' names and paths), plus a second root
+inline void prelude_deep(World& w, S& h, Ctx& ctx)
+{
+    static const std::vector<std::string> pool = {"A", "B", "C", "D", "AA", "BA"};
+    auto nm = [&] { return pool[h.below(pool.size())]; };
+    auto mk_root = [&](const std::string& name) -> CrateM* {
+        if (w.sibling_name_exists(0, name))
+            return nullptr;
+        dj::crate cr = w.db.create_root_crate(name);
+        adopt_new_crate(w, ctx, cr, name, 0, 0, "prelude");
+        return &w.crates.back();
+    };
+    auto mk_sub = [&](int64_t parent, const std::string& name) -> int64_t {
+        CrateM* p = w.by_id(parent);
+        if (!p || w.sibling_name_exists(parent, name))
+            return 0;
+        dj::crate cr = p->handle.create_sub_crate(name);
+        adopt_new_crate(w, ctx, cr, name, parent, 0, "prelude");
+        return cr.id();
+    };
+    CrateM* r = mk_root(nm());
+    if (!r)
+        return;
+    int64_t cur = r->id;
+    size_t depth = 2 + h.below(3);
+    for (size_t i = 1; i < depth && cur; ++i)
+    {
+        int64_t next = mk_sub(cur, nm());
+        if (h.coin())
+            mk_sub(cur, nm());  // a sibling on the way down
+        cur = next;
+    }
+    mk_root(nm());
+    w.hist += " | prelude_deep(" + std::to_string(w.live_crates().size()) + " crates, depth " + std::to_string(w.max_depth) + ")";
+}
+
 // ------------------------------------------------------------------------------------------------------ C07
 inline void prop_c07(const vf::Case& c, Ctx& ctx)
 {
@@ -875,6 +914,11 @@ inline void prop_c07(const vf::Case& c, Ctx& ctx)
     World w(schema, e::create_temporary_database(schema));
     w.hist = "schema " + sname(schema);
     check_forest(w, w.hist + " [empty]");
+    if (h.coin())
+    {
+        prelude_deep(w, h, ctx);
+        check_forest(w, w.hist);
+    }
     for (size_t r = 1; r < c.size(); ++r)
     {
         S s(c[r]);
